@@ -11,6 +11,8 @@
 (* A run is described by its options                                         *)
 (*   [owp, pot, sf, owf]  overwrite_predictions, predict_on_train,            *)
 (*                        save_fitted_strategies, overwrite_fitted_strategies *)
+(*   ns                   the strategies 1..ns take part in this run (a later *)
+(*                        run over the same store may bring more strategies)  *)
 (* and by crash, the number of the fit / predict call that raises (0: none).  *)
 (* RunEffect folds the documented per-key procedure over all keys; a crash     *)
 (* aborts the run: what was saved stays, the registry is not persisted.        *)
@@ -35,7 +37,7 @@ Call(r, crash) == IF r.calls + 1 = crash THEN [r EXCEPT !.calls = r.calls + 1, !
                   ELSE [r EXCEPT !.calls = r.calls + 1]
 
 KeyStep(r0, key, o, crash, run) ==
-    IF r0.dead THEN r0 ELSE
+    IF r0.dead \/ key[2] > o.ns THEN r0 ELSE
     LET testE == Has(r0.st.pred, <<key, "test">>)
         trainE == Has(r0.st.pred, <<key, "train">>)
         fitE == Has(r0.st.fitted, key)
@@ -68,5 +70,6 @@ Visible(st, f, part) == { <<s, d>> \in st.master.S \X st.master.D : TRUE }
 Readable(st, f, part) == \A s \in st.master.S, d \in st.master.D : Has(st.pred, << <<d, s, f>>, part >>)
 Complete(st, key, o) == Has(st.pred, <<key, "test">>) /\ (Has(st.pred, <<key, "train">>) \/ ~o.pot)
                         /\ (Has(st.fitted, key) \/ ~o.sf)
-NCalls(o) == ND * NS * NF * (IF o.pot THEN 3 ELSE 2)                \* calls of an uninterrupted run on an empty store
+RunKeys(o) == {k \in AllKeys : k[2] <= o.ns}
+NCalls(o) == ND * o.ns * NF * (IF o.pot THEN 3 ELSE 2)                \* calls of an uninterrupted run on an empty store
 =============================================================================
